@@ -116,3 +116,20 @@ def merge(results, rule, exhaustive=False):
         for k, v in r.get("distribution", {}).items():
             out["distribution"][k] = v
     return out
+
+
+def simple_run(ctx, pairs, rule, with_spec=None):
+    """pairs: [(adapter instance, generator function)]"""
+    rng, tier = ctx["rng"], ctx["tier"]
+    ws = (not ctx["props_ok"]) if with_spec is None else with_spec
+    rs = [run_adapter(ad, gen(tier, rng), rng, with_spec=ws) for ad, gen in pairs]
+    return merge(rs, rule)
+
+
+def simple_replay(adapters_by_name, payload):
+    ad = adapters_by_name[payload["function"]]
+    canon, mutated = ad.impl(payload["case"])
+    mism, errs = core.eval_cases("replay", ad.imports, ad.rtype, ad.eqb,
+                                 [(ad.model(payload["case"]), ad.expected(canon) or "(Raises OtherError)")])
+    return {"impl": canon, "model": ad.printed_to_canon(mism[0]) if 0 in mism else "== impl", "mutated": mutated,
+            "errors": errs}
